@@ -54,8 +54,12 @@ func (s *session) close() {
 	if s.e.ViaConn {
 		stat.Label("session_over_connection_loop", 1)
 	}
-	if o := s.e.NFS.GetExportOptions(); o.Log != nil && o.Log.Level == "debug" {
+	o := s.e.NFS.GetExportOptions()
+	if o.Log != nil && o.Log.Level == "debug" {
 		stat.Label("session_with_debug_logging", 1)
+	}
+	if o.EnableRateLimiting && o.RateLimitConfig != nil && o.RateLimitConfig.GlobalRequestsPerSecond == 1000000 {
+		stat.Label("session_with_idle_rate_limiting", 1)
 	}
 	s.e.Close()
 }
@@ -156,6 +160,9 @@ type cacheCfg struct {
 	// Verbose (not a cache setting either): debug-level JSON logging of operations, file access and client addresses
 	// is switched on (to /dev/null). Logging must not change any reply.
 	Verbose bool `json:"verbose,omitempty"`
+	// Limits (likewise): rate limiting is enabled with limits far above anything a case sends (10^6 everywhere), so
+	// that nothing is ever refused. Enabled-but-idle rate limiting must not change any reply.
+	Limits bool `json:"limits,omitempty"`
 }
 
 func (c cacheCfg) apply(o *absnfs.ExportOptions) {
@@ -168,6 +175,12 @@ func (c cacheCfg) apply(o *absnfs.ExportOptions) {
 	}
 	if c.Negative {
 		o.NegativeCacheTimeout = time.Hour
+	}
+	if c.Limits {
+		o.EnableRateLimiting = true
+		o.RateLimitConfig = &absnfs.RateLimiterConfig{GlobalRequestsPerSecond: 1000000, PerIPRequestsPerSecond: 1000000, PerIPBurstSize: 1000000,
+			PerConnectionRequestsPerSecond: 1000000, PerConnectionBurstSize: 1000000, ReadLargeOpsPerSecond: 1000000, WriteLargeOpsPerSecond: 1000000,
+			ReaddirOpsPerSecond: 1000000, MountOpsPerMinute: 1000000, FileHandlesPerIP: 1000000, FileHandlesGlobal: 10000000, CleanupInterval: 5 * time.Minute}
 	}
 	if c.Verbose {
 		o.Log = &absnfs.LogConfig{Level: "debug", Format: "json", Output: "/dev/null", LogClientIPs: true, LogOperations: true, LogFileAccess: true}
